@@ -7,6 +7,7 @@ From GI Require Import Gen.LockedFileConsts LockedFile.LockedFile LockedFile.Loc
   LockedFile.LockProofs LockedFile.TransformProofs LockedFile.TransformCall
   LockedFile.LinBasics LockedFile.LinProofs LockedFile.LinTheorems LockedFile.FaultProofs.
 From GI Require Import LockedFile.Policy LockedFile.PolicyProofs LockedFile.PolicyTransform LockedFile.PolicyCall.
+From GI Require Import LockedFile.LinFresh.
 Import ListNotations.
 
 (* ---- faults: every plan with at most one faulty operation (a failing write may have
@@ -359,3 +360,29 @@ Theorem C07_policies_extend_plans : forall p plan h b fd,
   run_body_pol p (pol_of_plan plan) h b fd = run_body p plan (length h) b fd.
 Proof. exact run_body_pol_plan. Qed.
 Print Assumptions C07_policies_extend_plans.
+
+(* ---- files that do not exist yet (LinFresh.v): instances of the schedule theorems for the calls
+   that create the file *)
+
+(* Transform opens with Edit's flags: it creates, and it never truncates *)
+Theorem C07_transform_creates_without_truncating : forall t b,
+  has_flag (flags_of_call (CTransform t)) sys_O_CREATE = true /\
+  has_flag (flags_of_call (CTransform t)) sys_O_TRUNC = false /\
+  has_flag (flags_of_call (CTransform t)) truncate_cond_mask = false /\
+  start_contents (flags_of_call (CTransform t)) b = b.
+Proof. exact transform_creates_without_truncating. Qed.
+Print Assumptions C07_transform_creates_without_truncating.
+
+(* Transforms racing on a file that does not exist when they start lose nothing *)
+Theorem C07_no_lost_update_new_file : forall cfg f s i g cs,
+  wf_cfg cfg -> reachable cfg f s -> f i = None ->
+  (forall c, c_ino (cfg c) = i ->
+     c_call (cfg c) = CRead \/ c_call (cfg c) = CTransform (fun b => Some (g b))) ->
+  NoDup cs ->
+  (forall c, In c cs -> c_ino (cfg c) = i /\ c_call (cfg c) = CTransform (fun b => Some (g b)) /\
+                        returned s c ResOk) ->
+  (forall c, c_ino (cfg c) = i -> c_call (cfg c) = CTransform (fun b => Some (g b)) ->
+             ~ In c cs -> t_inv s c = None) ->
+  reg s i = Nat.iter (length cs) g [].
+Proof. exact no_lost_update_new_file. Qed.
+Print Assumptions C07_no_lost_update_new_file.
